@@ -51,6 +51,8 @@ def run(ctx, chk):
     chk.rule("C03.R12", "CF = OF = the upper half of the product is significant (condition of the helper's flag branch as a closed form)", floor=4)
     muldiv_flag_rule(ctx, chk, tabs)
     aam_aad_value_rule(ctx, chk)
+    chk.rule("C03.R14", "DAA, DAS, AAA, AAS equal the manual's piecewise definition (path-wise closed forms evaluated for every AL, AF, CF)", floor=4)
+    adjust_piecewise_rule(ctx, chk)
     for nt in tabs:
         width = 8 if nt.startswith("byte") else 16
         wn = "byte" if width == 8 else "word"
@@ -716,3 +718,219 @@ def aam_aad_value_rule(ctx, chk):
                 text = (f"{f} after {name.upper()} is [{_pred_show(have)}]; the manual sets it from the new AL: [{_pred_show(spec[f])}]; they differ for " +
                         ", ".join(f"{k}={v_:#x}" for k, v_ in sorted(env.items())) + f": {int(_eval_pred(have, env))} instead of {int(_eval_pred(spec[f], env))}")
                 chk.violation("C03.R12", name, f"{f}-condition", f"{fn['name']}: {text}", where, witness=text)
+
+
+# ---------------------------------------------------------------------------------------------------------------
+# R14: DAA, DAS, AAA, AAS as piecewise functions
+def _eval_value(v, env, depth=0):
+    """the concrete value an abstract value denotes for a valuation of the input atoms, from its closed form, its recorded
+    comparison, or its exact bits; None when the value carries none of these"""
+    from domains import bxform
+    if v is None or depth > 8 or v.kind != "int":
+        return None
+    if v.is_const():
+        return v.lo
+    if v.aff is not None:
+        try:
+            return v.aff.eval(env)
+        except KeyError:
+            return None
+    pr = getattr(v, "pred", None)
+    if pr is not None:
+        k = pr[0]
+        if k == "cmp":
+            x, y = _eval_value(pr[2], env, depth + 1), _eval_value(pr[3], env, depth + 1)
+            if x is None or y is None:
+                return None
+            return int({"Eq": x == y, "Ne": x != y, "Lt": x < y, "Le": x <= y, "Gt": x > y, "Ge": x >= y}[pr[1]])
+        if k == "not":
+            x = _eval_value(pr[1], env, depth + 1)
+            return None if x is None else 1 - x
+        if k in ("and", "or", "xor"):
+            x, y = _eval_value(pr[1], env, depth + 1), _eval_value(pr[2], env, depth + 1)
+            if x is None or y is None:
+                return None
+            return {"and": x & y, "or": x | y, "xor": x ^ y}[k]
+        if k == "bit":
+            x = _eval_value(pr[1], env, depth + 1)
+            return None if x is None else x & (1 << pr[2])
+    val = 0
+    for i, b in enumerate(v.bits):
+        xf = bxform(b)
+        if xf is None:
+            return None
+        bit = xf[1]
+        for at, j in xf[0]:
+            if at not in env:
+                return None
+            bit ^= (env[at] >> j) & 1
+        val |= bit << i
+    if v.signed and val >= 1 << (v.w - 1):
+        val -= 1 << v.w
+    return val
+
+
+def _manual_adjust(name, al, ah, af, cf):
+    """the 8086 manual's definition: -> (ax, {flag: value} for the flags the instruction defines)"""
+    par = lambda x: int(bin(x & 0xFF).count("1") % 2 == 0)
+    if name in ("aaa", "aas"):
+        if (al & 0xF) > 9 or af:
+            al = (al + 6) & 0xFF if name == "aaa" else (al - 6) & 0xFF
+            ah = (ah + 1) & 0xFF if name == "aaa" else (ah - 1) & 0xFF
+            af = 1
+        else:
+            af = 0
+        cf = af
+        al &= 0x0F
+        return (ah << 8) | al, {"AF": af, "CF": cf}
+    if (al & 0xF) > 9 or af:
+        al = (al + 6) & 0xFF if name == "daa" else (al - 6) & 0xFF
+        af = 1
+    else:
+        af = 0
+    if al > 0x9F or cf:
+        al = (al + 0x60) & 0xFF if name == "daa" else (al - 0x60) & 0xFF
+        cf = 1
+    else:
+        cf = 0
+    return (ah << 8) | al, {"AF": af, "CF": cf, "SF": al >> 7, "ZF": int(al == 0), "PF": par(al)}
+
+
+def adjust_piecewise_rule(ctx, chk):
+    """C03.R14.  DAA, DAS, AAA, AAS are piecewise: which piece applies depends on AL's low nibble, AL itself, AF and CF.
+    The helper's paths are enumerated by forcing each of its own branches both ways (`force_switch`); every path yields
+    closed forms for AX and for the booleans / constants that set the flags, and its branch conditions as recorded
+    comparisons.  These *formulas* are then evaluated for every AL (256), AF, CF and four values of AH -- 4096 valuations --
+    and compared with the manual's definition of the instruction.  Exactly one path must apply to each valuation.  A
+    valuation on which AX or a defined flag differs is reported with its registers; a path whose forms cannot be evaluated
+    leaves the instruction undecided.  (What is evaluated is the extracted closed form, not the program.)"""
+    from rules_c01 import bool_flag_map
+    P = ctx.program
+    for name in ("aaa", "aas", "daa", "das"):
+        fn = P.find("lib", f"instructions::arithmetic::{name}")
+        if fn is None:
+            chk.undecided_("C03.R14", name, "helper not found")
+            continue
+        where = fn_where(fn)
+        paths = []
+        budget = [64]
+
+        def explore(force):
+            if budget[0] <= 0:
+                raise Unsupported("too many paths")
+            budget[0] -= 1
+            s = summarize_fn(ctx, fn, record_switch=True, force_switch=dict(force))
+            nxt = None
+            for e in s.I.events:
+                if e.kind == "switch" and e.fn == fn["name"] and getattr(e, "depth", 1) == 1 and e.bb not in force and e.val.kind == "int" and not e.val.is_const():
+                    nxt = e
+                    break
+            if nxt is None:
+                if not s.st.dead:
+                    conds = [(e.val, force[e.bb]) for e in s.I.events if e.kind == "switch" and e.fn == fn["name"] and getattr(e, "depth", 1) == 1 and e.bb in force]
+                    paths.append((dict(force), s, conds))
+                return
+            for v_ in [v for v, _ in nxt.arms] + ["else"]:
+                f2 = dict(force)
+                f2[nxt.bb] = v_
+                explore(f2)
+        try:
+            explore({})
+        except Unsupported as e:
+            chk.undecided_("C03.R14", name, str(e))
+            continue
+        if not paths:
+            chk.undecided_("C03.R14", name, "no returning path")
+            continue
+        # per path: which boolean sets which flag
+        infos = []
+        for force, s, conds in paths:
+            decided = {}
+            for e in s.I.events:
+                if e.kind == "call" and getattr(e, "fref", None) and e.fref.get("local"):
+                    for bit, (path, pol) in bool_flag_map(ctx, e).items():
+                        v = e.args[path[0]] if len(path) == 1 else e.args[path[0]].fields[path[1]]
+                        decided[bit] = (v, pol)
+            infos.append((force, s, conds, decided))
+        bad = None
+        undecided = None
+        n = 0
+        for al in range(256):
+            for ah in (0x00, 0x01, 0x7F, 0xFF):
+                for af in (0, 1):
+                    for cf in (0, 1):
+                        env = {"ax": (ah << 8) | al, "flag": (af << 4) | cf | 0xF000}
+                        match = []
+                        for force, s, conds, decided in infos:
+                            ok = True
+                            for d, taken in conds:
+                                x = _eval_value(d, env)
+                                if x is None:
+                                    ok = None
+                                    break
+                                if taken == "else":
+                                    arms_ = [e.arms for e in s.I.events if e.kind == "switch" and e.val is d]
+                                    hit = x not in [v for v, _ in (arms_[0] if arms_ else [])]
+                                else:
+                                    hit = (x == taken)
+                                if not hit:
+                                    ok = False
+                                    break
+                            if ok is None:
+                                undecided = "a branch condition has no evaluable form"
+                                break
+                            if ok:
+                                match.append((s, decided))
+                        if undecided:
+                            break
+                        if len(match) != 1:
+                            undecided = f"{len(match)} paths apply to AL={al:#x}, AF={af}, CF={cf}"
+                            break
+                        s, decided = match[0]
+                        got_ax = _eval_value(s.regs["ax"], env)
+                        if got_ax is None:
+                            undecided = "AX has no evaluable form on some path"
+                            break
+                        want_ax, want_f = _manual_adjust(name, al, ah, af, cf)
+                        n += 1
+                        if got_ax % 65536 != want_ax:
+                            bad = bad or f"AL={al:#04x}, AH={ah:#04x}, AF={af}, CF={cf}: AX becomes {got_ax % 65536:#06x}, the manual gives {want_ax:#06x}"
+                        for f, wv in want_f.items():
+                            fb = s.flag.bits[FBIT[f]]
+                            if fb in (0, 1):
+                                gv = fb
+                            elif isinstance(fb, tuple) and fb[0] in "cn" and fb[1] == "flag":
+                                gv = ((env["flag"] >> fb[2]) & 1) ^ (1 if fb[0] == "n" else 0)
+                            elif FBIT[f] in decided:
+                                bv, pol = decided[FBIT[f]]
+                                x = _eval_value(bv, env)
+                                if x is None and f == "PF":
+                                    # the boolean comes out of a parity helper (decided on the bit domain): evaluate its argument
+                                    from rules_c01 import is_parity_helper
+                                    for e_ in s.I.events:
+                                        if e_.kind == "call" and getattr(e_, "fref", None) and e_.fref.get("local") and len(e_.args) == 1 \
+                                                and e_.args[0].kind == "int" and e_.args[0].vid in bv.lineage:
+                                            g_ = P.fns.get(e_.fref.get("id"))
+                                            if g_ is not None and is_parity_helper(ctx, g_):
+                                                a_ = _eval_value(e_.args[0], env)
+                                                if a_ is not None:
+                                                    x = int(bin(a_ & 0xFF).count("1") % 2 == 0)
+                                gv = None if x is None else (x if pol else 1 - x)
+                            else:
+                                gv = None
+                            if gv is None:
+                                undecided = undecided or f"{f} has no evaluable form on some path"
+                            elif gv != wv:
+                                bad = bad or f"AL={al:#04x}, AH={ah:#04x}, AF={af}, CF={cf}: {f} becomes {gv}, the manual gives {wv}"
+                    if undecided and "paths apply" in undecided:
+                        break
+                if undecided and "paths apply" in undecided:
+                    break
+            if undecided and "paths apply" in undecided:
+                break
+        if bad:
+            chk.violation("C03.R14", name, "adjust-value", f"{fn['name']}: {bad}", where, witness=bad)
+        elif undecided:
+            chk.undecided_("C03.R14", name, undecided)
+        else:
+            chk.ok("C03.R14", name, f"{len(paths)} paths; AX and the defined flags equal the manual's on all {n} valuations of AL x AH(4) x AF x CF")
